@@ -444,6 +444,8 @@ def simplify(s: Sym) -> Sym:
             a, b = (xs[1], xs[0]) if swap else (xs[0], xs[1])
             inner = simplify(OP(pos, a, b))
             return simplify(OP("not", inner)) if neg else inner
+        if op == "is" and len(xs) == 2 and xs[0] == xs[1] and xs[0][0] in ("n", "a") and not dotted(xs[0]).startswith("$"):
+            return C(True)          # the same variable / attribute path read twice with nothing in between: the same object
         if op in ("is", "==") and len(xs) == 2:
             # a symbolic reference to a global (class / function) against the name itself: same spelling, same object;
             # two different plain global names denote different objects
